@@ -457,6 +457,38 @@ pub mod unit {
 
     // (a KNOWN-FINDING obligation about RawValue's sub-traverser depth budget is kept OUT of this unit:
     //  see known_finding.frag.rs and finding_replay/ in this directory)
+
+    // ---- KNOWN FINDING: the depth budget handed to the sub-traverser by RawValue decoding ----------
+    /// `RawValue::decode_body_with_value_kind` (sbor/src/encoded_wrappers.rs) measures the raw value with
+    /// `calculate_value_tree_body_byte_length(.., decoder.get_stack_depth(), decoder.get_depth_limit())`,
+    /// which runs a VecTraverser with `max_depth: depth_limit - current_depth`.  Both argument expressions
+    /// and the subtraction are sliced from the real code.  A decode BODY runs after
+    /// decode_deeper_body_with_value_kind has already counted the value itself, so the raw value (the
+    /// sub-traverser's root, relative depth 1) sits at absolute depth `stack_depth`; a child entered with
+    /// `len` containers on the sub-traverser's stack sits at absolute depth stack_depth + len.  Agreement
+    /// (C21) demands that the sub-traverser's guard refuses it exactly when the decoder would refuse to go
+    /// from depth stack_depth + len - 1 to stack_depth + len.  It does NOT: the budget is one too small
+    /// (len = 1, stack_depth + 1 == max_depth).  Replayed on the real crate: finding_replay/OUTPUT.txt
+    /// (payload [91, 33, 1, 33, 0], depth limit 2: BasicValue decodes, the encoder accepts, BasicRawValue
+    /// is rejected with MaxDepthExceeded(1)).  This obligation is EXPECTED TO FAIL.
+    pub fn raw_value_subtraverser_budget_KNOWN_FINDING<'de, X: CustomValueKind>(decoder: &VecDecoder<'de, X>) -> (max_depth: usize)
+        requires 1 <= decoder.stack_depth <= decoder.max_depth
+        ensures
+            forall|len: int| len >= 1 ==>
+                (#[trigger] refuses_child(len, max_depth as int) <==> refuses_child(decoder.stack_depth + len - 1, decoder.max_depth as int))
+    {
+        let current_depth = /*@expr-after sbor/src/encoded_wrappers.rs :: impl<Ext: CustomExtension, D: Decoder<Ext::CustomValueKind>> Decode<Ext::CustomValueKind, D> for RawValue<'_, Ext> :: fn decode_body_with_value_kind :: <<value_kind,>> #1 @*/;
+        let depth_limit = /*@expr-after sbor/src/encoded_wrappers.rs :: impl<Ext: CustomExtension, D: Decoder<Ext::CustomValueKind>> Decode<Ext::CustomValueKind, D> for RawValue<'_, Ext> :: fn decode_body_with_value_kind :: <<decoder.get_stack_depth(),>> #1 @*/;
+        /*@expr-after sbor/src/traversal/untyped/traverser.rs :: fn calculate_value_tree_body_byte_length :: <<max_depth:>> #1 @*/
+    }
+    /// What the budget WOULD have to be for agreement (same slices, `+ 1`): shows the oracle is satisfiable
+    /// and pins the defect to the off-by-one.
+    pub proof fn lemma_agreeing_budget(stack_depth: int, max_depth: int)
+        requires 1 <= stack_depth <= max_depth
+        ensures forall|len: int| len >= 1 ==>
+            (#[trigger] refuses_child(len, max_depth - stack_depth + 1) <==> refuses_child(stack_depth + len - 1, max_depth))
+    {}
+
 }
 } // verus!
 fn main() {}
